@@ -457,6 +457,51 @@ def mutants(r, S):
         e["inverse"].append({"name": "badinv", "card": "SET [0:?] OF", "entity": other["name"], "attr": "nosuch_inv_attr_xyz"})
         return ("bad_inverse", "INVERSE of %s names nosuch_inv_attr_xyz" % e["name"], {"quoted": "nosuch_inv_attr_xyz"})
 
+    # an undefined name at every kind of position of an expression (WHERE rule) and of a statement (function body)
+    WHERE_POS = ["%s > 0", "0 < %s", "%s = {a}", "{a} <> %s", "%s IN [1, 2]", "(%s + 1) > 0", "ABS (%s) > 0", "SIZEOF ([%s]) > 0",
+                 "NOT (%s > 1)", "{a} + %s > 2", "EXISTS (%s)", "%s :=: {a}", "{a} * (%s - 1) >= 0",
+                 "SIZEOF (QUERY (q <* [1, 2] | q > %s)) >= 0", "(%s > 0) OR ({a} > 0)", "({a} > 0) AND (%s > 0)", "-%s < 0"]
+    STMT_POS = ["y := %s;", "IF %s = x THEN y := 1; END_IF;", "y := y + %s;", "REPEAT j := 1 TO %s; y := y; END_REPEAT;",
+                "REPEAT WHILE %s > 0; y := y; END_REPEAT;", "CASE %s OF 1 : y := 1; END_CASE;",
+                "CASE x OF 1 : y := %s; OTHERWISE : y := 0; END_CASE;", "CASE x OF 1 : y := 0; OTHERWISE : y := %s; END_CASE;",
+                "CASE x OF %s : y := 0; END_CASE;", "RETURN (%s);", "%s := 1;", "IF x > 0 THEN y := 1; ELSE y := %s; END_IF;",
+                "ALIAS z FOR %s; y := 1; END_ALIAS;", "BEGIN y := %s; END;"]
+
+    def undefined_name_where(tpl):
+        def fn(T):
+            es = [e for e in T.entities if any(a["type"] == "INTEGER" and not a["optional"] for a in e["attrs"])]
+            if not es:
+                return None
+            e = r.choice(es)
+            a = [a["name"] for a in e["attrs"] if a["type"] == "INTEGER" and not a["optional"]][0]
+            e["where"].append(("wundefn", tpl.replace("{a}", a) % "nosuch_var_xyz"))
+            return ("undefined_name", "WHERE rule of %s: %s" % (e["name"], tpl), {"quoted": "nosuch_var_xyz"})
+        return fn
+
+    def undefined_name_stmt(tpl):
+        def fn(T):
+            T.functions.append({"name": "f_undefn", "params": [("x", "INTEGER")], "ret": "INTEGER",
+                                "body": ["LOCAL", "  y : INTEGER := 0;", "END_LOCAL;", tpl % "nosuch_var_xyz", "RETURN (y);"]})
+            return ("undefined_name", "function body: %s" % tpl, {"quoted": "nosuch_var_xyz"})
+        return fn
+
+    def duplicate_enum_item(T):
+        ts = [t for t in T.types if t["kind"] == "enum"]
+        if not ts:
+            return None
+        t = r.choice(ts)
+        t["items"] = t["items"] + [r.choice(t["items"])]
+        return ("duplicate_declaration", "enumeration %s lists %s twice" % (t["name"], t["items"][-1]), {"quoted": t["items"][-1]})
+
+    tpls = list(WHERE_POS)
+    r.shuffle(tpls)
+    spls = list(STMT_POS)
+    r.shuffle(spls)
+    for tpl in tpls[:4]:
+        variant(undefined_name_where(tpl))
+    for tpl in spls[:4]:
+        variant(undefined_name_stmt(tpl))
+    variant(duplicate_enum_item)
     for fn in (undefined_type, undefined_supertype, undefined_subtype, undefined_schema, undefined_function, undefined_attr,
                duplicate_decl, duplicate_entity, duplicate_attr, subtype_cycle, select_cycle, subtype_not_listing,
                subtype_not_listing_second, inherited_redeclared, inherited_redeclared_indirect, bad_inverse):
